@@ -372,6 +372,7 @@ inline bool GraphData::bind(ClosureContext& closure) noexcept {
   closure.add_waiting_data(this);
   if (ABSL_PREDICT_FALSE(!_closure.compare_exchange_strong(
           expected, &closure, ::std::memory_order_acq_rel))) {
+    BABYLON_VERIF_POINT("af:data_bind_lost");
     closure.depend_data_sub();
     return false;
   }
@@ -398,8 +399,10 @@ inline bool GraphData::acquire() noexcept {
   bool expected = false;
   if (ABSL_PREDICT_TRUE(_acquired.compare_exchange_strong(
           expected, true, ::std::memory_order_acq_rel))) {
+    BABYLON_VERIF_POINT("af:data_acquired");
     return true;
   }
+  BABYLON_VERIF_POINT("af:data_acquire_lost");
   return false;
 }
 
